@@ -44,7 +44,7 @@ pub fn run(ctx: &mut Ctx) {
     }
     or.exhaustive.push("all 2^16 request ids and all 2^16 content lengths (round trip)".into());
     for pad in 0..=255u32 { let op = format!("hdr.enc {} {} {} {pad}", rng.range(1, 11), rng.below(65536), rng.below(65536)); let o = ex(&mut log, &mut im, &op);
-        if u8::from_str_radix(&o[12..14], 16).ok() != Some(pad as u8) { fail(&mut or, format!("padding byte not encoded: {o}"), op); } or.eval(("pad", pad), true); }
+        if o.get(12..14).and_then(|h| u8::from_str_radix(h, 16).ok()) != Some(pad as u8) { fail(&mut or, format!("padding byte not encoded: {o}"), op); } or.eval(("pad", pad), true); }
     log.case("flat-padding");
     for c in 0..=65535u32 {
         let op = format!("hdr.setlen {c}");
